@@ -6,24 +6,26 @@ cd "$(dirname "$0")"
 export GOFLAGS=-mod=mod GOPROXY=off GOSUMDB=off GOTOOLCHAIN=local
 export VERIF_ROOT="$PWD"
 REPO=${VERIF_REPO:-/repo}
+if [ "$REPO" = "/repo" ]; then BIN=bin; else BIN=bin/alt-$(echo "$REPO" | md5sum | cut -c1-8); fi
+export VERIF_BIN="$VERIF_ROOT/$BIN"
 
 build() {
-  mkdir -p bin
+  mkdir -p bin $BIN
   (
     flock 9
-    cp "$REPO/go.sum" go.sum
     if [ "$REPO" != "/repo" ]; then
-      sed "s#=> /repo#=> $REPO#" go.mod > bin/go.alt.mod; cp go.sum bin/go.alt.sum
-      MODFLAG="-modfile=bin/go.alt.mod"
+      sed "s#=> /repo#=> $REPO#" go.mod > $BIN/go.alt.mod; cp "$REPO/go.sum" $BIN/go.alt.sum
+      MODFLAG="-modfile=$BIN/go.alt.mod"
     else
+      cp "$REPO/go.sum" go.sum
       MODFLAG=""
     fi
-    go build $MODFLAG -tags verif -o bin/vcheck ./cmd/vcheck || exit 3
+    go build $MODFLAG -tags verif -o $BIN/vcheck ./cmd/vcheck || exit 3
     if [ "${1:-}" = "race" ] || [ "${1:-}" = "all" ]; then
-      go build $MODFLAG -race -tags verif -o bin/vcheck-race ./cmd/vcheck || exit 3
+      go build $MODFLAG -race -tags verif -o $BIN/vcheck-race ./cmd/vcheck || exit 3
     fi
     if [ "${1:-}" = "zeno" ] || [ "${1:-}" = "all" ]; then
-      (cd "$REPO" && go build -tags verif -o "$VERIF_ROOT/bin/zeno" ./cmd/zeno) || exit 3
+      (cd "$REPO" && go build -tags verif -o "$VERIF_ROOT/$BIN/zeno" ./cmd/zeno) || exit 3
     fi
   ) 9>bin/.build.lock
 }
@@ -34,4 +36,4 @@ fi
 ID=${1:?usage: run.sh <ID> <quick|thorough>}; TIER=${2:-quick}; shift; shift || true
 NEED=$(grep -E "^$ID " needs.txt 2>/dev/null | cut -d' ' -f2)
 build "${NEED:-plain}" || { echo "BUILD FAILED property=$ID"; exit 3; }
-exec bin/vcheck run "$ID" "$TIER" "$@"
+exec $BIN/vcheck run "$ID" "$TIER" "$@"
